@@ -4,6 +4,7 @@ tier, on compiled-but-never-executed code objects via dis)."""
 from __future__ import annotations
 
 import ast
+import os
 import builtins
 import dis
 import symtable
@@ -128,4 +129,103 @@ def fragment_source(parts: list[ast.AST]) -> list[str | None]:
             out.append(_re.sub(r"\{\d*!r\}", "'X'", _re.sub(r"\{\d*(!s)?\}", "X", a.func.value.value).replace("{{", "{").replace("}}", "}")))
         else:
             out.append(None)
+    return out
+
+
+# --------------------------------------------------------------------------- stdlib of an older interpreter, read as source
+def oldest_stdlib_root() -> tuple[str, str] | None:
+    """(version, directory) of the oldest CPython standard library present as *source* on this machine, other than the
+    running one -- read with ast, never imported or executed"""
+    import glob
+    import re
+    import sys
+    cands = []
+    for d in glob.glob("/usr/lib/python3.*") + glob.glob("/usr/local/lib/python3.*"):
+        m = re.search(r"python3\.(\d+)$", d)
+        if m and os.path.exists(os.path.join(d, "os.py")):
+            cands.append((int(m.group(1)), d))
+    cands = [c for c in cands if c[0] < sys.version_info[1]]
+    if not cands:
+        return None
+    v, d = min(cands)
+    return f"3.{v}", d
+
+
+def stdlib_exports(root: str, modname: str, _depth: int = 0) -> set[str] | None:
+    """names `from modname import X` can deliver according to the module's source under `root`; None when that cannot be
+    read off the source (extension module, dynamic namespace)"""
+    base = os.path.join(root, *modname.split("."))
+    path = base + ".py" if os.path.exists(base + ".py") else os.path.join(base, "__init__.py")
+    if not os.path.exists(path) or _depth > 3:
+        return None
+    try:
+        with open(path, encoding="utf-8") as f:
+            tree = ast.parse(f.read())
+    except (OSError, SyntaxError, UnicodeDecodeError):
+        return None
+    names: set[str] = set()
+    if os.path.isdir(base):
+        names |= {os.path.splitext(n)[0] for n in os.listdir(base) if n.endswith(".py") or os.path.isdir(os.path.join(base, n))}
+
+    def visit(body) -> bool:
+        for st in body:
+            if isinstance(st, (ast.FunctionDef, ast.AsyncFunctionDef, ast.ClassDef)):
+                names.add(st.name)
+            elif isinstance(st, ast.Assign):
+                for t in st.targets:
+                    names.update(x.id for x in ast.walk(t) if isinstance(x, ast.Name))
+            elif isinstance(st, (ast.AnnAssign, ast.AugAssign)) and isinstance(st.target, ast.Name):
+                names.add(st.target.id)
+            elif isinstance(st, ast.Import):
+                names.update((a.asname or a.name.split(".")[0]) for a in st.names)
+            elif isinstance(st, ast.ImportFrom):
+                for a in st.names:
+                    if a.name == "*":
+                        if st.level:
+                            return False
+                        sub = stdlib_exports(root, st.module or "", _depth + 1)
+                        if sub is None:
+                            return False
+                        alls = stdlib_all(root, st.module or "")
+                        names.update(alls if alls is not None else {n for n in sub if not n.startswith("_")})
+                    else:
+                        names.add(a.asname or a.name)
+            elif isinstance(st, (ast.If, ast.Try, ast.With, ast.For, ast.While)):
+                for fld in ("body", "orelse", "finalbody"):
+                    if not visit(getattr(st, fld, []) or []):
+                        return False
+                for h in getattr(st, "handlers", []) or []:
+                    if not visit(h.body):
+                        return False
+            elif isinstance(st, ast.Expr) and isinstance(st.value, ast.Call) and isinstance(st.value.func, ast.Attribute) \
+                    and st.value.func.attr in ("update", "setdefault") and "globals" in ast.unparse(st.value.func.value):
+                return False  # namespace built dynamically
+        return True
+    if not visit(tree.body):
+        return None
+    if any(isinstance(n, ast.FunctionDef) and n.name == "__getattr__" for n in tree.body):
+        return None
+    return names
+
+
+def stdlib_all(root: str, modname: str) -> set[str] | None:
+    base = os.path.join(root, *modname.split("."))
+    path = base + ".py" if os.path.exists(base + ".py") else os.path.join(base, "__init__.py")
+    try:
+        with open(path, encoding="utf-8") as f:
+            tree = ast.parse(f.read())
+    except (OSError, SyntaxError, UnicodeDecodeError):
+        return None
+    out = None
+    for st in tree.body:
+        if isinstance(st, ast.Assign) and any(isinstance(t, ast.Name) and t.id == "__all__" for t in st.targets):
+            try:
+                out = set(ast.literal_eval(st.value))
+            except Exception:
+                return None
+        elif isinstance(st, ast.AugAssign) and isinstance(st.target, ast.Name) and st.target.id == "__all__":
+            try:
+                out = (out or set()) | set(ast.literal_eval(st.value))
+            except Exception:
+                return None
     return out
